@@ -1,0 +1,316 @@
+//! Verification hooks (compiled only with `--cfg pearl_verif`).
+//!
+//! * an I/O tap that records every open/create/write/sync issued through [`crate::io`] files,
+//! * a failpoint table: fail, shorten or pause the n-th operation of a kind on a path pattern,
+//! * a counter of blocking I/O closures that are still running (detached from their futures).
+//!
+//! Nothing here changes behaviour unless a failpoint is armed.
+
+use std::collections::HashMap;
+use std::io::{Error as IoError, ErrorKind as IoErrorKind, Result as IoResult};
+use std::os::unix::prelude::{AsRawFd, FileExt};
+use std::path::{Path, PathBuf};
+use std::sync::atomic::{AtomicI64, AtomicU64, Ordering};
+use std::sync::{Condvar, Mutex};
+
+use crate::io::WritableData;
+
+/// Kind of a tapped file operation
+#[derive(Debug, Clone, Copy, PartialEq, Eq, Hash)]
+pub enum OpKind {
+    /// file opened for append (existing file)
+    Open,
+    /// file created / opened for positional writes
+    Create,
+    /// positional write
+    Write,
+    /// sync_all
+    Sync,
+}
+
+/// One tapped file operation
+#[derive(Debug, Clone)]
+pub struct Event {
+    /// global sequence number
+    pub seq: u64,
+    /// path of the file
+    pub path: PathBuf,
+    /// operation kind
+    pub kind: OpKind,
+    /// offset passed to the positional write (0 for other kinds)
+    pub offset: u64,
+    /// length of the payload (for `Sync`: the size that will be published as synced)
+    pub len: u64,
+    /// payload, when payload recording is on
+    pub data: Option<Vec<u8>>,
+    /// outcome injected by a failpoint, if any
+    pub injected: Option<&'static str>,
+}
+
+/// What an armed failpoint does
+#[derive(Debug, Clone, PartialEq, Eq)]
+pub enum Action {
+    /// fail with the given raw OS error (e.g. 28 = ENOSPC, 5 = EIO)
+    Fail(i32),
+    /// write only the first `n` bytes, then fail with EIO
+    Short(u64),
+    /// block until [`release`] is called with this gate id
+    Pause(u64),
+}
+
+/// A failpoint: the `nth` (0-based, counted from arming) operation of `kind` whose path contains `pattern`
+#[derive(Debug, Clone)]
+pub struct Failpoint {
+    /// operation kind to match
+    pub kind: OpKind,
+    /// substring of the path to match
+    pub pattern: String,
+    /// which matching operation triggers (0-based)
+    pub nth: u64,
+    /// what happens
+    pub action: Action,
+    /// keep failing on every later matching operation too
+    pub sticky: bool,
+}
+
+#[derive(Debug, Default)]
+struct State {
+    recording: bool,
+    payload: bool,
+    events: Vec<Event>,
+    fds: HashMap<i32, PathBuf>,
+    failpoints: Vec<(Failpoint, u64)>,
+    released: Vec<u64>,
+    paused: Vec<u64>,
+}
+
+static SEQ: AtomicU64 = AtomicU64::new(0);
+static INFLIGHT: AtomicI64 = AtomicI64::new(0);
+static STATE: Mutex<Option<State>> = Mutex::new(None);
+static GATE: Condvar = Condvar::new();
+
+fn with_state<R>(f: impl FnOnce(&mut State) -> R) -> R {
+    let mut g = STATE.lock().unwrap_or_else(|e| e.into_inner());
+    f(g.get_or_insert_with(State::default))
+}
+
+/// Start (or stop) recording events; `payload` also keeps the written bytes
+pub fn set_recording(on: bool, payload: bool) {
+    with_state(|s| {
+        s.recording = on;
+        s.payload = payload;
+    })
+}
+
+/// Take the events recorded so far
+pub fn take_events() -> Vec<Event> {
+    with_state(|s| std::mem::take(&mut s.events))
+}
+
+/// Arm a failpoint
+pub fn arm(fp: Failpoint) {
+    with_state(|s| s.failpoints.push((fp, 0)))
+}
+
+/// Remove all failpoints and release all gates
+pub fn clear_failpoints() {
+    with_state(|s| {
+        s.failpoints.clear();
+        let p = std::mem::take(&mut s.paused);
+        s.released.extend(p);
+    });
+    GATE.notify_all();
+}
+
+/// Release the operations paused on `gate`
+pub fn release(gate: u64) {
+    with_state(|s| s.released.push(gate));
+    GATE.notify_all();
+}
+
+/// Gates on which an operation is currently blocked
+pub fn paused_gates() -> Vec<u64> {
+    with_state(|s| s.paused.clone())
+}
+
+/// Number of blocking I/O closures started and not yet finished
+pub fn inflight() -> i64 {
+    INFLIGHT.load(Ordering::SeqCst)
+}
+
+/// Guard counting one running blocking closure
+#[derive(Debug)]
+pub struct InflightGuard;
+
+impl InflightGuard {
+    /// Count one more running closure
+    pub fn new() -> Self {
+        INFLIGHT.fetch_add(1, Ordering::SeqCst);
+        InflightGuard
+    }
+}
+
+impl Drop for InflightGuard {
+    fn drop(&mut self) {
+        INFLIGHT.fetch_sub(1, Ordering::SeqCst);
+    }
+}
+
+pub(crate) fn register_fd(fd: i32, path: &Path, create: bool) -> IoResult<()> {
+    with_state(|s| {
+        s.fds.insert(fd, path.to_path_buf());
+    });
+    let kind = if create { OpKind::Create } else { OpKind::Open };
+    let act = check(kind, path);
+    record(path, kind, 0, 0, None, act.as_ref());
+    apply_simple(act)
+}
+
+fn path_of(fd: i32) -> PathBuf {
+    with_state(|s| s.fds.get(&fd).cloned()).unwrap_or_default()
+}
+
+fn check(kind: OpKind, path: &Path) -> Option<Action> {
+    let p = path.to_string_lossy();
+    with_state(|s| {
+        let mut res = None;
+        for (fp, seen) in s.failpoints.iter_mut() {
+            if fp.kind == kind && p.contains(fp.pattern.as_str()) {
+                let n = *seen;
+                *seen += 1;
+                if n == fp.nth || (fp.sticky && n > fp.nth) {
+                    res = Some(fp.action.clone());
+                    break;
+                }
+            }
+        }
+        res
+    })
+}
+
+fn record(path: &Path, kind: OpKind, offset: u64, len: u64, data: Option<&[u8]>, act: Option<&Action>) {
+    with_state(|s| {
+        if s.recording {
+            let data = if s.payload { data.map(|d| d.to_vec()) } else { None };
+            let injected = match act {
+                Some(Action::Fail(_)) => Some("fail"),
+                Some(Action::Short(_)) => Some("short"),
+                Some(Action::Pause(_)) => Some("pause"),
+                None => None,
+            };
+            s.events.push(Event {
+                seq: SEQ.fetch_add(1, Ordering::SeqCst),
+                path: path.to_path_buf(),
+                kind,
+                offset,
+                len,
+                data,
+                injected,
+            });
+        }
+    })
+}
+
+fn wait_gate(gate: u64) {
+    let mut g = STATE.lock().unwrap_or_else(|e| e.into_inner());
+    g.get_or_insert_with(State::default).paused.push(gate);
+    loop {
+        let st = g.get_or_insert_with(State::default);
+        if let Some(pos) = st.released.iter().position(|x| *x == gate) {
+            st.released.remove(pos);
+            st.paused.retain(|x| *x != gate);
+            return;
+        }
+        g = GATE.wait(g).unwrap_or_else(|e| e.into_inner());
+    }
+}
+
+fn apply_simple(act: Option<Action>) -> IoResult<()> {
+    match act {
+        Some(Action::Fail(errno)) => Err(IoError::from_raw_os_error(errno)),
+        Some(Action::Short(_)) => Err(IoError::from_raw_os_error(5)),
+        Some(Action::Pause(g)) => {
+            wait_gate(g);
+            Ok(())
+        }
+        None => Ok(()),
+    }
+}
+
+fn one_write(file: &std::fs::File, path: &Path, offset: u64, buf: &[u8]) -> IoResult<()> {
+    let act = check(OpKind::Write, path);
+    record(path, OpKind::Write, offset, buf.len() as u64, Some(buf), act.as_ref());
+    match act {
+        Some(Action::Short(n)) => {
+            let n = (n as usize).min(buf.len());
+            file.write_all_at(&buf[..n], offset)?;
+            Err(IoError::new(IoErrorKind::Other, "pearl_verif: injected short write"))
+        }
+        other => apply_simple(other),
+    }
+}
+
+/// Hook called before a record (one or two buffers) is written at `offset`.
+/// On `Err` the caller skips the real write.
+pub(crate) fn on_write_data(file: &std::fs::File, offset: u64, data: &WritableData) -> IoResult<()> {
+    let path = path_of(file.as_raw_fd());
+    match data {
+        WritableData::Single(b) => one_write(file, &path, offset, b),
+        WritableData::Double(b1, b2) => {
+            one_write(file, &path, offset, b1)?;
+            // the second buffer is a separate pwrite; a failure injected here must leave the first one on disk
+            let act = check(OpKind::Write, &path);
+            let off2 = offset + b1.len() as u64;
+            record(&path, OpKind::Write, off2, b2.len() as u64, Some(b2), act.as_ref());
+            match act {
+                None => Ok(()),
+                Some(Action::Pause(g)) => {
+                    file.write_all_at(b1, offset)?;
+                    wait_gate(g);
+                    Ok(())
+                }
+                Some(Action::Short(n)) => {
+                    file.write_all_at(b1, offset)?;
+                    let n = (n as usize).min(b2.len());
+                    file.write_all_at(&b2[..n], off2)?;
+                    Err(IoError::new(IoErrorKind::Other, "pearl_verif: injected short write"))
+                }
+                Some(Action::Fail(errno)) => {
+                    file.write_all_at(b1, offset)?;
+                    Err(IoError::from_raw_os_error(errno))
+                }
+            }
+        }
+    }
+}
+
+/// Hook called before a plain buffer is written at `offset`
+pub(crate) fn on_write_buf(file: &std::fs::File, offset: u64, buf: &[u8]) -> IoResult<()> {
+    let path = path_of(file.as_raw_fd());
+    one_write(file, &path, offset, buf)
+}
+
+/// Hook called before `sync_all`; `size` is the size that will be published as synced
+pub(crate) fn on_sync(file: &std::fs::File, size: u64) -> IoResult<()> {
+    let path = path_of(file.as_raw_fd());
+    let act = check(OpKind::Sync, &path);
+    record(&path, OpKind::Sync, 0, size, None, act.as_ref());
+    apply_simple(act)
+}
+
+/// State of one blob as seen by the storage
+#[derive(Debug, Clone)]
+pub struct BlobState {
+    /// blob id
+    pub id: usize,
+    /// is it the active blob
+    pub active: bool,
+    /// is its index on disk
+    pub index_on_disk: bool,
+    /// records in its index
+    pub records: usize,
+    /// logical size of the blob file
+    pub file_size: u64,
+    /// bytes not yet synced
+    pub dirty: u64,
+}
